@@ -33,5 +33,14 @@ def main():
                     for k_, v_ in sorted((r["model"] or {}).items()):
                         print("        %s = %s" % (k_, " ".join(str(v_).split())))
                     break
+    for lc in getattr(mod, "LEMMAS", []):
+        if names and lc.__name__ not in names: continue
+        l = lc(); obs = l.obligations()
+        res = solve.discharge_all(obs, scope=l.scope)
+        for ob, r in zip(obs, res):
+            print("  LEMMA %-60s %s %s t=%.2f" % (ob.name, r["status"], r["solver"], r["time_s"]))
+            if r["status"] != "discharged":
+                for k_, v_ in sorted((r["model"] or {}).items()):
+                    print("        %s = %s" % (k_, " ".join(str(v_).split())))
     print("total %.1fs" % (time.time() - t0))
 main()
